@@ -401,6 +401,43 @@ CONTRACTS.append(Contract(
 ))
 
 
+def _hmac_multi_post(it, env):
+    """result() -> (update, finalize): finalize() after update(a) is HMAC(a); after a further update(b) it is HMAC(a || b); asking twice gives the same"""
+    from pyvc.values import SStr
+    g = it.run.ghost
+    key = it.to_z3(env.lookup("key"))
+    B = g["B"].e
+    hk = Hf(key)
+    it.run.assume(z3.Length(hk) == g["D"].e)
+    k0 = z3.If(z3.Length(key) > B, hk, key)
+    pad = it.str_repeat(SStr(z3.StringVal("\x00"), "bytes"), it.wrap_int(B - z3.Length(k0)))
+    K = SStr(z3.Concat(k0, it.to_z3(pad)), "bytes")
+    ipad = it.m_text_translate(K, extract_const(DG, "_TRANS_36"))
+    opad = it.m_text_translate(K, extract_const(DG, "_TRANS_5C"))
+
+    def mac(m):
+        return Hf(z3.Concat(opad.e, Hf(z3.Concat(ipad.e, m))))
+
+    a, b = it.to_z3(env.lookup("msg")), it.to_z3(env.lookup("msg2"))
+    pair = it.call_value(env.lookup("result"), [], {})
+    update, finalize = it.static_items_req(pair)
+    it.call_value(update, [env.lookup("msg")], {})
+    f1 = it.to_z3(it.call_value(finalize, [], {}))
+    f1b = it.to_z3(it.call_value(finalize, [], {}))
+    it.call_value(update, [env.lookup("msg2")], {})
+    f2 = it.to_z3(it.call_value(finalize, [], {}))
+    return z3.And(f1 == mac(a), f1b == mac(a), f2 == mac(z3.Concat(a, b)))
+
+
+CONTRACTS.append(Contract(
+    "compile_hmac[multipart]", f"{DG}::compile_hmac",
+    params={"digest": Const("sha256"), "key": __import__("pyvc.contract", fromlist=["Bytes"]).Bytes(), "multipart": Const(True), "msg": __import__("pyvc.contract", fromlist=["Bytes"]).Bytes(), "msg2": __import__("pyvc.contract", fromlist=["Bytes"]).Bytes()},
+    setup=_hmac_setup,
+    ensures=[("incremental use equals one-shot use: finalize() is HMAC of everything absorbed so far, any number of times, also after further update() calls", _hmac_multi_post)],
+    descr="abstract hash, every key, two arbitrary message parts, finalize called three times",
+))
+
+
 def _md4_new(it, args, kwargs):
     from pyvc.values import SList, SObj
     return SObj(it.run.fresh("md4 object"), cls=args[0].cls, fresh=True, fields={"_count": 0, "_state": SList([0x67452301, 0xEFCDAB89, 0x98BADCFE, 0x10325476]), "_buf": b""})
@@ -505,4 +542,5 @@ MUTANTS = [
     ("pbkdf1: one round short", DG, "    for _ in range(rounds):\n        block = const(block).digest()", "    for _ in range(rounds - 1):\n        block = const(block).digest()", "refute", "pbkdf1"),
     ("pbkdf1: zero rounds accepted", DG, "    if rounds < 1:\n        raise ValueError(\"rounds must be at least 1\")", "    if rounds < 0:\n        raise ValueError(\"rounds must be at least 1\")", "refute", "pbkdf1"),
     ("pbkdf1: salt before secret", DG, "    block = secret + salt\n", "    block = salt + secret\n", "refute", "pbkdf1"),
+    ("hmac multipart: the outer hash is shared between finalize() calls", DG, "            def finalize():\n                outer = _outer_copy()\n                outer.update(inner.digest())", "            outer = _outer_copy()\n\n            def finalize():\n                outer.update(inner.digest())", "refute", "multipart"),
 ]
